@@ -5,28 +5,31 @@ import Driver.Common
 namespace Driver.CountdownDrv
 open SuplaVerif Driver
 
-abbrev St := List CdItem
+structure St where
+  items : List CdItem
+  pub : List Nat
 
-def init : St := List.replicate 8 { channel := 255, left := 0, last := 0 }
+def init : St := { items := List.replicate 8 { channel := 255, left := 0, last := 0 }, pub := List.replicate Gen.cdT2Count 0 }
 
 def step (s : St) (toks : List String) : St × List String :=
   match toks with
   | ["init"] => (init, [])
   | ["cdset", i, ch, l, la] =>
     match i.toNat?, ch.toNat?, l.toNat?, la.toNat? with
-    | some i, some c, some l, some la => (s.set i { channel := c, left := l, last := la }, [])
+    | some i, some c, some l, some la => ({ s with items := s.items.set i { channel := c, left := l, last := la } }, [])
     | _, _, _, _ => (s, ["BADOP"])
   | ["cdcb", now] =>
     match now.toNat? with
     | some n =>
-      let rs := s.map (fun it => it.tick n)
-      let fin := (s.zip rs).filterMap (fun (o, r) => if r.2 then some s!"FINISH {o.channel}" else none)
-      let s' := rs.map (·.1)
+      let rs := s.items.map (fun it => it.tick n)
+      let fin := (s.items.zip rs).filterMap (fun (o, r) => if r.2 then some s!"FINISH {o.channel}" else none)
+      let all := cdTickAll n s.items s.pub
+      let s' := all.1
       let items := (List.range s'.length).filterMap (fun k =>
         match s'[k]? with
         | some it => if it.channel ≠ 255 then some s!"ITEM {k} {it.channel} {it.left}" else none
         | none => none)
-      (s', fin ++ items ++ [s!"DELAY {cdDelay Gen.cdParams s'}"])
+      ({ items := s', pub := all.2 }, fin ++ items ++ [s!"DELAY {cdDelay Gen.cdParams s'}", "T2L " ++ " ".intercalate (all.2.map toString)])
     | none => (s, ["BADOP"])
   | _ => (s, [])
 
